@@ -4,10 +4,14 @@ import (
 	gnutar "archive/tar"
 	"bytes"
 	"context"
+	"crypto/sha256"
+	"crypto/sha512"
 	"fmt"
 	"io"
 	"os"
 	"path/filepath"
+	"strconv"
+	"strings"
 	"testing"
 
 	"verif/fw"
@@ -76,6 +80,175 @@ func gnuTarOf(want map[string]*treeEntry) ([]byte, bool) {
 		return nil, false
 	}
 	return tb.Bytes(), true
+}
+
+// parseMtree reads an mtree manifest as mtree(5) defines it: one entry per line, words separated by blanks, the first
+// word the path with \ooo escapes, every other word keyword=value. It returns the entries and, for files, the size
+// and digest words.
+type mtreeFile struct {
+	size   int64
+	digest string
+}
+
+func parseMtree(b []byte) (map[string]*treeEntry, map[string]mtreeFile, error) {
+	lines := strings.Split(strings.TrimSuffix(string(b), "\n"), "\n")
+	if len(lines) == 0 || lines[0] != "#mtree v1.0" {
+		return nil, nil, fmt.Errorf("no '#mtree v1.0' signature line")
+	}
+	unescape := func(s string) (string, error) {
+		var o []byte
+		for i := 0; i < len(s); i++ {
+			if s[i] != '\\' {
+				o = append(o, s[i])
+				continue
+			}
+			if i+3 >= len(s) {
+				return "", fmt.Errorf("dangling backslash in %q", s)
+			}
+			v, err := strconv.ParseUint(s[i+1:i+4], 8, 8)
+			if err != nil {
+				return "", fmt.Errorf("bad escape in %q", s)
+			}
+			o = append(o, byte(v))
+			i += 3
+		}
+		return string(o), nil
+	}
+	got := map[string]*treeEntry{}
+	files := map[string]mtreeFile{}
+	for _, line := range lines[1:] {
+		words := strings.Split(line, " ")
+		if words[0] == "" {
+			return nil, nil, fmt.Errorf("word: line %q begins with a blank", line)
+		}
+		name, err := unescape(words[0])
+		if err != nil {
+			return nil, nil, err
+		}
+		e := &treeEntry{Path: filepath.Clean(name), Xattrs: map[string]string{}}
+		kv := map[string]string{}
+		for _, w := range words[1:] {
+			k, v, ok := strings.Cut(w, "=")
+			if !ok || k == "" || v == "" {
+				if t, isTime := kv["time"]; isTime && strings.HasSuffix(t, ".") {
+					return nil, nil, fmt.Errorf("time: line %q: blanks inside the time value", line)
+				}
+				return nil, nil, fmt.Errorf("word: line %q: word %q is not keyword=value", line, w)
+			}
+			if _, dup := kv[k]; dup {
+				return nil, nil, fmt.Errorf("line %q: keyword %q twice", line, k)
+			}
+			kv[k] = v
+		}
+		switch kv["type"] {
+		case "dir", "file", "char", "block":
+			e.Type = kv["type"]
+		case "link":
+			e.Type = "symlink"
+			if e.Target, err = unescape(kv["target"]); err != nil {
+				return nil, nil, err
+			}
+		default:
+			return nil, nil, fmt.Errorf("line %q: type %q", line, kv["type"])
+		}
+		num := func(k string, base int) (uint64, error) {
+			v, err := strconv.ParseUint(kv[k], base, 64)
+			if err != nil {
+				return 0, fmt.Errorf("line %q: %s=%q", line, k, kv[k])
+			}
+			return v, nil
+		}
+		m, err := num("mode", 8)
+		if err != nil {
+			return nil, nil, err
+		}
+		u, err := num("uid", 10)
+		if err != nil {
+			return nil, nil, err
+		}
+		g, err := num("gid", 10)
+		if err != nil {
+			return nil, nil, err
+		}
+		e.Mode, e.UID, e.GID = uint32(m), uint32(u), uint32(g)
+		if e.Type == "symlink" {
+			e.Mode = 0
+		}
+		sec, nsec, ok := strings.Cut(kv["time"], ".")
+		si, err1 := strconv.ParseInt(sec, 10, 64)
+		ni, err2 := strconv.ParseUint(nsec, 10, 64)
+		if !ok || err1 != nil || err2 != nil || len(nsec) != 9 {
+			return nil, nil, fmt.Errorf("line %q: time=%q is not seconds.nanoseconds", line, kv["time"])
+		}
+		e.MtimeNs = si*1e9 + int64(ni)
+		if e.Type == "file" {
+			sz, err := num("size", 10)
+			if err != nil {
+				return nil, nil, err
+			}
+			f := mtreeFile{size: int64(sz)}
+			for _, k := range []string{"sha512256digest", "sha256digest"} {
+				if v, ok := kv[k]; ok {
+					f.digest = k + "=" + v
+				}
+			}
+			files[e.Path] = f
+		}
+		if got[e.Path] != nil {
+			return nil, nil, fmt.Errorf("path %q listed twice", e.Path)
+		}
+		got[e.Path] = e
+	}
+	return got, files, nil
+}
+
+// checkMtree compares an mtree manifest with the source tree. The format written by desync carries neither extended
+// attributes nor device numbers; content is compared through size and digest.
+func checkMtree(c *fw.Case, site string, out []byte, want map[string]*treeEntry, useSHA256 bool) bool {
+	got, files, err := parseMtree(out)
+	if err != nil {
+		cat, msg, ok := strings.Cut(err.Error(), ": ")
+		if !ok || strings.Contains(cat, " ") {
+			cat, msg = "syntax", err.Error()
+		}
+		c.Violate("mtree-malformed", site+"/"+cat, "%s", msg)
+		return false
+	}
+	key := "sha512256digest"
+	digest := func(b []byte) []byte { s := sha512.Sum512_256(b); return s[:] }
+	if useSHA256 {
+		key = "sha256digest"
+		digest = func(b []byte) []byte { s := sha256.Sum256(b); return s[:] }
+	}
+	for p, e := range got {
+		w := want[p]
+		if e.Type != "file" || w == nil || w.Type != "file" {
+			if w != nil {
+				e.Rdev = w.Rdev // not carried
+			}
+			continue
+		}
+		if files[p].size == int64(len(w.Content)) && files[p].digest == fmt.Sprintf("%s=%x", key, digest(w.Content)) {
+			e.Content = w.Content
+		} else {
+			e.Content = []byte("size/digest words: " + fmt.Sprint(files[p].size) + " " + files[p].digest)
+		}
+	}
+	for _, e := range want {
+		if e.Type == "file" && e.Content == nil {
+			e.Content = []byte{}
+		}
+	}
+	for _, e := range got {
+		if e.Type == "file" && e.Content == nil {
+			e.Content = []byte{}
+		}
+	}
+	if cat, d := diffTrees(want, got, map[string]bool{"xattr": true}); cat != "" {
+		c.Violate("tree-differs", site+"/"+cat, "%s", d)
+		return false
+	}
+	return true
 }
 
 func runC05(c *fw.Case) {
@@ -203,6 +376,27 @@ func runC05(c *fw.Case) {
 			return
 		}
 	case 2:
+		if c.Draw(2, "c05.out") == 1 {
+			// mtree manifest as output
+			site = "mtree-out"
+			var out bytes.Buffer
+			if catch(c, "UnTar", func() {
+				var mfs desync.MtreeFS
+				if mfs, err = desync.NewMtreeFS(&out); err == nil {
+					err = desync.UnTar(context.Background(), bytes.NewReader(archive), mfs)
+				}
+			}) {
+				return
+			}
+			if err != nil {
+				c.Violate("untar-failed", site, "%v", err)
+				return
+			}
+			if checkMtree(c, site, out.Bytes(), want, sha256mode) {
+				c.Outcome("ok")
+			}
+			return
+		}
 		var out bytes.Buffer
 		if catch(c, "UnTar", func() {
 			tw := desync.NewTarWriter(&out)
